@@ -113,7 +113,7 @@ def source_hash(fn):
 class Trace:
     def __init__(self, id, inputs, build, obligations, functions=(), decide=None, lemmas=(), max_paths=64,
                  budget_s=120, post_bind=None, note="", sample_filter=None, expect_paths=None, requires_nonzero=None,
-                 requires_smt=None, definedness=True, smt_timeout=10, numeric=None):
+                 requires_smt=None, definedness=True, smt_timeout=10, numeric=None, witness_candidates=None):
         self.id = id
         self.inputs = inputs
         self.build = build
@@ -133,6 +133,8 @@ class Trace:
         # companion trace WITHOUT stubs (same obligation ids, stated on the real function's outputs): used for
         # counterexample search and replay when this trace replaces callees by their contracts
         self.numeric = numeric
+        # concrete inputs tried first in the counterexample search (degenerate corners random sampling cannot hit)
+        self.witness_candidates = witness_candidates or []
 
     # ------------------------------------------------------------------
     def sx_inputs(self):
@@ -486,6 +488,9 @@ class Trace:
         return env
 
     def _path_reachable(self, g, trace, rng, n=4000):
+        for c in self.witness_candidates:
+            if self._path_ok(g, trace, self._env_of(c)):
+                return True
         for _ in range(n):
             vals = self.sample(rng)
             if self._path_ok(g, trace, self._env_of(vals)):
@@ -508,8 +513,9 @@ class Trace:
         if self.numeric is not None:
             return self.numeric.witness_for(ob.id, rng)
         best = None
-        for _ in range(n):
-            vals = self.sample(rng)
+        cands = list(self.witness_candidates)
+        for k in range(n + len(cands)):
+            vals = cands[k] if k < len(cands) else self.sample(rng)
             if g is not None and not self._path_ok(g, trace, self._env_of(vals)):
                 continue
             num = self.numeric_outputs(fn, vals)
